@@ -1122,3 +1122,10 @@ pub(crate) fn get_time_limit(tv: &libc::timeval) -> u64 {
     }
     time_limit
 }
+
+/// Verification access to the crate-private `get_time_limit`.
+#[cfg(feature = "verif")]
+#[must_use]
+pub fn verif_get_time_limit(tv: &libc::timeval) -> u64 {
+    get_time_limit(tv)
+}
